@@ -48,7 +48,7 @@ func runAllocs(vecs []*vector, tab *table, seed int64, cfg int, ids map[int]bool
 		}
 		cnt["alloc_cases"]++
 		rng := caseRand(seed, 0, v.S)
-		data := buildFrame(v.S, rng, u, true)
+		data := buildFrame(v.S, rng, u, true, "random")
 		buf := make([]byte, len(data), len(data)+64)
 		copy(buf, data)
 		var fr packet.Frame
